@@ -259,7 +259,7 @@ type scenario struct {
 }
 
 var terminators = []string{"peer-close", "stream-error", "handler-error", "deadline"}
-var forced = []string{"X1a", "X1b", "X2", "X3", "X4", "X5a", "X5b", "X6", "X7"}
+var forced = []string{"X1a", "X1b", "X2", "X3", "X4", "X5a", "X5b", "X6", "X7", "X8"}
 
 func run(c *core.Case) {
 	if c.Index < len(forced)*2 {
@@ -820,9 +820,45 @@ func runSyncTransport(c *core.Case, s2s bool) {
 	w.finish("peer-close", smp)
 }
 
+// runCloseDeadlineDuringLoop is scenario X8: the serve loop has picked up the
+// input context for its next iteration and is parked before it looks at it;
+// the application calls SetCloseDeadline (far in the future), which replaces
+// that context; then the peer sends a stanza and closes.  Serve must go on
+// and end without error, not report the replaced context as canceled.
+func runCloseDeadlineDuringLoop(c *core.Case, s2s bool) {
+	smp := &sample{Kind: "X8", S2S: s2s, Terminator: "peer-close"}
+	c.Sample(smp)
+	ct := ctrl.New()
+	defer ct.Close()
+	r1 := ct.Park("serve.loop", "")
+	w := newWorld(c, sess.Opts{S2S: s2s})
+	if w == nil {
+		return
+	}
+	if !r1.WaitArrived(20 * time.Second) {
+		c.Inconclusive("X8: Serve did not reach serve.loop")
+		r1.Release()
+		return
+	}
+	c.Count("yield:serve.loop", 1)
+	e := w.h.begin("app", "setclosedeadline", "")
+	err := w.p.S.SetCloseDeadline(time.Now().Add(time.Hour))
+	w.h.end(e, fmt.Sprint(err), "")
+	r1.Release()
+	w.p.Send("<message id='x8'><body>still here</body></message>")
+	c.Count("forced_scenarios", 1)
+	c.Count("close_deadline_during_loop_scenarios", 1)
+	w.terminate("peer-close")
+	w.finish("peer-close", smp)
+}
+
 func runForced(c *core.Case, id string, s2s bool) {
 	if id == "X6" {
 		runSyncTransport(c, s2s)
+		return
+	}
+	if id == "X8" {
+		runCloseDeadlineDuringLoop(c, s2s)
 		return
 	}
 	smp := &sample{Kind: id, S2S: s2s}
@@ -1021,7 +1057,7 @@ func Prop() *core.Prop {
 		ID:    "C10",
 		Level: core.Exploration,
 		Race:  true,
-		Rule:  "the first 18 cases are the forced scenarios X1a/X1b/X2/X3/X4 (orderings at the close.enter / senderr.enter yield points) X5a/X5b (the transport fails, entirely or after 5 bytes, exactly on the write of the closing tag) and X6 (a transport with synchronous writes in both directions: Close blocked on the closing tag while the peer sends two more stanzas before reading) and X7 (a sender's context ends during its write and the write-deadline helper is parked at wdl.armed while the handler answers a peer IQ), each c2s and s2s; the rest are stress histories on one served session: 0-3 closers (1-3 Close calls each, sometimes SetCloseDeadline), 1-4 senders drawing from 13 transmit entry points, peer-injected IQs answered by the handler, and one terminator from {peer close tag, peer stream error, handler error, silence + 50 ms close deadline} issued early or after the actors; afterwards every entry point is called once more on the closed session. Oracles: closing-tag count and bytes after it on the peer side; porcupine check of the recorded history against a two-state closable-log model; marker-on-wire side conditions; State()/TokenReader after Serve; Serve's return per terminator. Distinct = (kind, terminator, closers, some transmit overlapped a Close?, some transmit began after a Close returned?, tags).",
+		Rule:  "the first 20 cases are the forced scenarios X1a/X1b/X2/X3/X4 (orderings at the close.enter / senderr.enter yield points) X5a/X5b (the transport fails, entirely or after 5 bytes, exactly on the write of the closing tag) and X6 (a transport with synchronous writes in both directions: Close blocked on the closing tag while the peer sends two more stanzas before reading) and X7 (a sender's context ends during its write and the write-deadline helper is parked at wdl.armed while the handler answers a peer IQ) and X8 (SetCloseDeadline replaces the input context while the serve loop is parked at serve.loop holding the old one), each c2s and s2s; the rest are stress histories on one served session: 0-3 closers (1-3 Close calls each, sometimes SetCloseDeadline), 1-4 senders drawing from 13 transmit entry points, peer-injected IQs answered by the handler, and one terminator from {peer close tag, peer stream error, handler error, silence + 50 ms close deadline} issued early or after the actors; afterwards every entry point is called once more on the closed session. Oracles: closing-tag count and bytes after it on the peer side; porcupine check of the recorded history against a two-state closable-log model; marker-on-wire side conditions; State()/TokenReader after Serve; Serve's return per terminator. Distinct = (kind, terminator, closers, some transmit overlapped a Close?, some transmit began after a Close returned?, tags).",
 		Assumptions: []string{
 			"a transmit that overlaps a Close in time may land on either side of the closing tag",
 			"handler replies are buffered until the handler returns, so their on-wire side condition is not demanded; their error value is",
@@ -1035,7 +1071,7 @@ func Prop() *core.Prop {
 			return len(forced)*2 + 70
 		},
 		Run: run,
-		Require: []string{"forced_scenarios", "stress_histories", "close_under_write_fault", "close_returns_with_wire_snapshot", "synchronous_transport_closes", "cancelled_sender_deadline_scenarios", "yield:close.enter", "yield:senderr.enter", "transmits_overlapping_a_close",
+		Require: []string{"forced_scenarios", "stress_histories", "close_under_write_fault", "close_returns_with_wire_snapshot", "synchronous_transport_closes", "cancelled_sender_deadline_scenarios", "close_deadline_during_loop_scenarios", "yield:close.enter", "yield:senderr.enter", "transmits_overlapping_a_close",
 			"transmits_begun_after_a_close_returned", "late_transmits", "porcupine_checks",
 			"serve_returned:peer-close", "serve_returned:stream-error", "serve_returned:handler-error", "serve_returned:deadline"},
 		ReplayRepeats: 10,
